@@ -12,6 +12,8 @@ class Killed(BaseException):
 class Tracer:
     kill_emit = None      # die right after emitting event number n
     kill_stmt = None      # die right after executing private-DB statement number n (before its commit)
+    kill_event = None     # [name, k]: die right after the k-th event called name (e.g. the k-th TaskPool.remove,
+                          # i.e. between its early commit and the end-of-iteration rewrite of the task_pool table)
     stmt_count = 0
     def __init__(self):
         self.events = []
@@ -35,6 +37,11 @@ class Tracer:
         if self.kill_emit is not None and a["i"] == self.kill_emit:
             self.kill_emit = None
             raise Killed(f"event {a['i']}")
+        if self.kill_event is not None and e == self.kill_event[0]:
+            self.kill_event[1] -= 1
+            if self.kill_event[1] <= 0:
+                self.kill_event = None
+                raise Killed(f"event {a['i']} ({e})")
         return a
     def pt(self, point):
         s = str(point)
